@@ -1,6 +1,6 @@
 (* C04 — declared forwarding: forwards = embed o mask. *)
 From Sigtools.Model Require Import Base Bind Roles Algebra.
-From Sigtools.Proofs Require Import SmallModel Basics Deciders MaskLaws MaskExact.
+From Sigtools.Proofs Require Import SmallModel Basics Deciders MaskLaws MaskExact MaskNames ForwardsSound.
 
 Theorem C04_def o i n names0 ha hk uva uvk :
   forwards o i n names0 ha hk uva uvk false =
@@ -44,3 +44,47 @@ Theorem C04_bound_method s :
   end.
 Proof. intros H. exact (mask_positional_exact s 1 H (Nat.neq_succ_0 0)). Qed.
 Print Assumptions C04_bound_method.
+
+(* ---- executing the declared wrapper, ALL valid signatures (Proofs/ForwardsSound.v): a non-colliding call accepted
+   by forwards(...) is accepted by the wrapper and, with the literal arguments and the surplus, by the inner function;
+   the converse when no outer default is cleared; partial=True against the all-optional inner; raise conditions ---- *)
+Theorem C04_exec_sound : forall (o i : sigT) (n : nat) (names0 : list name) (uva uvk : bool) (r : sigT) (c : call), valid_sig (params o) = true -> valid_sig (params i) = true -> NoDup names0 -> forwards o i n names0 false false uva uvk false = Ok r -> noncolliding c (params r) [params o; params i] = true -> disjointb (kws c) names0 = true -> accepts (params r) c = true -> wrapper_exec (params o) (params i) n names0 uva uvk c = true.
+Proof. exact @ForwardsSound.C04_exec_sound. Qed.
+Print Assumptions C04_exec_sound.
+
+Theorem C04_exec_exact_defaults_kept : forall (o i : sigT) (n : nat) (names0 : list name) (uva uvk : bool) (r : sigT) (c : call), valid_sig (params o) = true -> valid_sig (params i) = true -> NoDup names0 -> forwards o i n names0 false false uva uvk false = Ok r -> map has_def (firstn (length (positional (params o))) (positional (params r))) = map has_def (positional (params o)) -> noncolliding c (params r) [params o; params i] = true -> disjointb (kws c) names0 = true -> accepts (params r) c = wrapper_exec (params o) (params i) n names0 uva uvk c.
+Proof. exact @ForwardsSound.C04_exec_exact_defaults_kept. Qed.
+Print Assumptions C04_exec_exact_defaults_kept.
+
+Theorem C04_exec_exact : forall (o i : sigT) (n : nat) (names0 : list name) (uva uvk : bool) (r : sigT) (c : call), valid_sig (params o) = true -> valid_sig (params i) = true -> NoDup names0 -> forwards o i n names0 false false uva uvk false = Ok r -> SweepDefs2.has_default_pos (params o) = false -> noncolliding c (params r) [params o; params i] = true -> disjointb (kws c) names0 = true -> accepts (params r) c = wrapper_exec (params o) (params i) n names0 uva uvk c.
+Proof. exact @ForwardsSound.C04_exec_exact. Qed.
+Print Assumptions C04_exec_exact.
+
+Theorem C04_forwards_partial_eq : forall (o i : sigT) (n : nat) (names0 : list name) (ha hk uva uvk : bool), forwards o i n names0 ha hk uva uvk true = forwards o (optional i) n names0 ha hk uva uvk false.
+Proof. exact @ForwardsSound.forwards_partial_eq. Qed.
+Print Assumptions C04_forwards_partial_eq.
+
+Theorem C04_accepts_optional : forall (ps : list param) (c : call), accepts (map optp ps) c = accepts_surplus_only ps c.
+Proof. exact @ForwardsSound.accepts_optional. Qed.
+Print Assumptions C04_accepts_optional.
+
+Theorem C04_partial_sound : forall (o i : sigT) (n : nat) (names0 : list name) (uva uvk : bool) (r : sigT) (c : call), valid_sig (params o) = true -> valid_sig (params i) = true -> NoDup names0 -> forwards o i n names0 false false uva uvk true = Ok r -> noncolliding c (params r) [params o; params i] = true -> disjointb (kws c) names0 = true -> accepts (params r) c = true -> wrapper_exec_partial (params o) (params i) n names0 uva uvk c = true.
+Proof. exact @ForwardsSound.C04_partial_sound. Qed.
+Print Assumptions C04_partial_sound.
+
+Theorem C04_partial_exact : forall (o i : sigT) (n : nat) (names0 : list name) (uva uvk : bool) (r : sigT) (c : call), valid_sig (params o) = true -> valid_sig (params i) = true -> NoDup names0 -> forwards o i n names0 false false uva uvk true = Ok r -> map has_def (firstn (length (positional (params o))) (positional (params r))) = map has_def (positional (params o)) -> noncolliding c (params r) [params o; params i] = true -> disjointb (kws c) names0 = true -> accepts (params r) c = wrapper_exec_partial (params o) (params i) n names0 uva uvk c.
+Proof. exact @ForwardsSound.C04_partial_exact. Qed.
+Print Assumptions C04_partial_exact.
+
+Theorem C04_raises_mask : forall (o i : sigT) (n : nat) (names0 : list name) (uva uvk : bool) (e : err), valid_sig (params i) = true -> NoDup names0 -> mask i n names0 nohide0 = Err e -> forwards o i n names0 false false uva uvk false = Err ValueErr /\ (forall c : call, disjointb (kws c) names0 = true -> wrapper_exec (params o) (params i) n names0 uva uvk c = false).
+Proof. exact @ForwardsSound.C04_raises_mask. Qed.
+Print Assumptions C04_raises_mask.
+
+Theorem C04_raises_incompatible : forall (o i : sigT) (n : nat) (names0 : list name) (uva uvk : bool), valid_sig (params o) = true -> valid_sig (params i) = true -> NoDup names0 -> forwards o i n names0 false false uva uvk false = Err Incompatible -> existsb (fun p : param => is_named p && mem (pname p) (names_of (filter is_named (params i)))) (params o) = true \/ (forall c : call, disjointb (kws c) names0 = true -> wrapper_exec (params o) (params i) n names0 uva uvk c = false).
+Proof. exact @ForwardsSound.C04_raises_incompatible. Qed.
+Print Assumptions C04_raises_incompatible.
+
+Theorem C04_raises_valueerror_refuted : exists (o i : sigT) (c : call), valid_sig (params o) = true /\ valid_sig (params i) = true /\ forwards o i 0 [] false false true true false = Err ValueErr /\ wrapper_exec (params o) (params i) 0 [] true true c = true.
+Proof. exact @ForwardsSound.C04_raises_valueerror_refuted. Qed.
+Print Assumptions C04_raises_valueerror_refuted.
+
